@@ -117,4 +117,70 @@ Section Targets.
     change (U (lift (Ok ops))) with (@nil ev). change (U (lift (Ok ts))) with (@nil ev). cbn [app].
     destruct (run_add_targets ops ts) as [E1 E2]. rewrite E1, E2. apply add_all_ok.
   Qed.
+  (* ---- Remove: the same, with remove_spec (which can refuse a stored value it cannot read) ---- *)
+  Definition remove_one (ops : list string) (t : string) : res unit * list ev :=
+    if owns t then match collection_prop (stored t) with
+                   | Ok cp => match remove_spec cp ops (stored t) with
+                              | Ok tp' => (Ok tt, [EDb "Update" [canon tp']])
+                              | Err e => (Err e, []) | Panic s => (Panic s, []) end
+                   | Err e => (Err e, []) | Panic s => (Panic s, []) end
+    else (Ok tt, []).
+  Lemma run_remove_loop ops t : res_env env (remove_loop ops t) = fst (remove_one ops t) /\ U (remove_loop ops t) = snd (remove_one ops t).
+  Proof.
+    unfold remove_loop, with_lock_deferred, remove_one.
+    rewrite res_env_bindr, U_bindr, r_lock, u_lock, res_env_bind, U_bind. cbn [app].
+    rewrite !res_env_bindr, !U_bindr, r_owns, u_owns. cbn [app].
+    destruct (owns t); cbn [negb].
+    - rewrite !res_env_bindr, !U_bindr, r_get, u_get, !res_env_bindr, !U_bindr, res_env_lift. cbn [app].
+      change (U (lift (collection_prop (stored t)))) with (@nil ev). cbn [app].
+      destruct (collection_prop (stored t)) as [cp|e|p].
+      + rewrite !res_env_bindr, !U_bindr, res_env_lift. change (U (lift (remove_spec cp ops (stored t)))) with (@nil ev). cbn [app].
+        destruct (remove_spec cp ops (stored t)) as [tp'|e|p].
+        * rewrite r_update, u_update, r_unlock, u_unlock. split; reflexivity.
+        * rewrite r_unlock, u_unlock. split; reflexivity.
+        * rewrite r_unlock, u_unlock. split; reflexivity.
+      + rewrite r_unlock, u_unlock. split; reflexivity.
+      + rewrite r_unlock, u_unlock. split; reflexivity.
+    - change (res_env env (ok tt)) with (Ok tt : res unit). change (U (ok tt)) with (@nil ev). rewrite r_unlock, u_unlock. split; reflexivity.
+  Qed.
+  Fixpoint remove_all (ops : list string) (ts : list string) : res unit * list ev :=
+    match ts with
+    | [] => (Ok tt, [])
+    | t :: r => match remove_one ops t with
+                | (Ok _, us) => let '(x, more) := remove_all ops r in (x, us ++ more)
+                | (x, us) => (x, us)
+                end
+    end.
+  Lemma run_remove_targets ops : forall ts, res_env env (foreach ts (remove_loop ops)) = fst (remove_all ops ts) /\ U (foreach ts (remove_loop ops)) = snd (remove_all ops ts).
+  Proof.
+    induction ts as [|t r [IH1 IH2]]; cbn [foreach remove_all]; [split; reflexivity|].
+    rewrite res_env_bindr, U_bindr. destruct (run_remove_loop ops t) as [E1 E2]. rewrite E1, E2.
+    destruct (remove_one ops t) as [[[]|e|p] us]; cbn [fst snd].
+    - rewrite IH1, IH2. destruct (remove_all ops r) as [x more]. split; reflexivity.
+    - rewrite app_nil_r. split; reflexivity.
+    - rewrite app_nil_r. split; reflexivity.
+  Qed.
+  Lemma remove_all_ok ops : forall ts, fst (remove_all ops ts) = Ok tt ->
+    snd (remove_all ops ts) = flat_map (fun t => if owns t then match collection_prop (stored t) with
+                                                                 | Ok cp => match remove_spec cp ops (stored t) with Ok tp' => [EDb "Update" [canon tp']] | _ => [] end
+                                                                 | _ => [] end else []) ts.
+  Proof.
+    induction ts as [|t r IH]; cbn [remove_all flat_map]; [intros _; reflexivity|].
+    unfold remove_one at 1 2. destruct (owns t) eqn:Eo.
+    - destruct (collection_prop (stored t)) as [cp|e|p] eqn:Ec; cbn [fst snd]; try (intros H; discriminate H).
+      destruct (remove_spec cp ops (stored t)) as [tp'|e|p] eqn:Er; cbn [fst snd]; try (intros H; discriminate H).
+      destruct (remove_all ops r) as [x more] eqn:Ea. cbn [fst snd]. intros Hx. subst x. pose proof (IH eq_refl) as IH'. cbn [snd] in IH'. rewrite IH'. reflexivity.
+    - destruct (remove_all ops r) as [x more] eqn:Ea. cbn [fst snd app]. intros Hx. subst x. pose proof (IH eq_refl) as IH'. cbn [snd] in IH'. exact IH'.
+  Qed.
+  Theorem remove_updates_owned a ops ts : ids_of "object" a = Ok ops -> ids_of "target" a = Ok ts ->
+    res_env env (remove a) = Ok tt ->
+    U (remove a) = flat_map (fun t => if owns t then match collection_prop (stored t) with
+                                                      | Ok cp => match remove_spec cp ops (stored t) with Ok tp' => [EDb "Update" [canon tp']] | _ => [] end
+                                                      | _ => [] end else []) ts.
+  Proof.
+    intros Ho Ht. unfold remove. rewrite res_env_bindr, U_bindr, res_env_lift, Ho. cbn beta iota.
+    rewrite res_env_bindr, U_bindr, res_env_lift, Ht. cbn beta iota.
+    change (U (lift (Ok ops))) with (@nil ev). change (U (lift (Ok ts))) with (@nil ev). cbn [app].
+    destruct (run_remove_targets ops ts) as [E1 E2]. rewrite E1, E2. apply remove_all_ok.
+  Qed.
 End Targets.
